@@ -286,7 +286,7 @@ Lemma conv_bind_val c : conv_bind c (fun v => Val v) = c.
 Proof. destruct c; reflexivity. Qed.
 
 (** equal up to commuted / re-associated exact sub-expressions under the same rounding operations *)
-Ltac same_up_to_ring := try reflexivity; first [ ring | f_equal; same_up_to_ring ].
+Ltac same_up_to_ring := try reflexivity; first [ ring | progress f_equal; same_up_to_ring ].
 
 Lemma laststep_bounds_form steps rot :
   laststep steps rot = Bounds.Qcceil (rnd53 (rnd53 (steps * rot) * laststep_guard)%Qc).
@@ -302,7 +302,7 @@ Proof.
   rewrite conv_bind_val.
   match goal with |- context [rnd53 (Qcz 1 - ?c)%Qc] =>
     replace (rnd53 (Qcz 1 - c)%Qc) with laststep_guard by (apply Qc_is_canon; vm_compute; reflexivity) end.
-  same_up_to_ring.
+  timeout 60 same_up_to_ring.
 Qed.
 
 (** the loop counts from 0 *)
